@@ -35,6 +35,8 @@ def case_strategy(draw):
         base = draw(xc.ref_tgt_case(nref=(1, 1), ntgt=(1, 12)))
     elif size == "2":
         base = draw(xc.ref_tgt_case(nref=(2, 2), ntgt=(1, 12)))
+        if draw(st.integers(0, 2)) == 0:
+            base["ref"]["edges"] = []           # a two-atom reference whose topology lists no bond between the atoms
     else:
         base = draw(xc.ref_tgt_case(nref=(3, 20), ntgt=(1, 20), nres_max=2))
     rng = np.random.default_rng(draw(gen.SEEDS))
@@ -168,6 +170,8 @@ def check(case):
                              "s x %.12g = %.12g" % (j, nm, x0, x1, xc_, s * xc_))
     ang = gen.rotation_angle(R)
     nt = ang > 0.1 and bool(np.any(t != 0))
+    if n == 2:
+        classes = list(classes) + ["two-atom:" + ("bonded" if case["ref"]["edges"] else "unbonded")]
     return {"nontrivial": nt, "classes": classes}
 
 
